@@ -152,7 +152,9 @@ class SetT(Type):
 
     def fresh(self, name):
         s = CSet.fresh(name, self.arity)
-        return s, [s.card >= 0]
+        ks = [z3.Int(fresh_name("m")) for _ in range(self.arity)]
+        # representation invariant of a finite set with exact ghost cardinality
+        return s, [s.card >= 0, (s.card == 0) == z3.ForAll(ks, z3.Not(s.contains(ks)))]
 
 
 class DictT(Type):
